@@ -35,6 +35,7 @@ type Env struct {
 	result []tval
 	resNames []string
 	depth  int
+	noteDistinct bool // evaluating an assumed precondition: alloc(a) != alloc(b) facts may be recorded
 }
 
 func (fr *Frame) newEnv(st *State) *Env {
@@ -345,6 +346,12 @@ func (e *Env) lookupLocal(name string) (tval, bool) {
 			if e.loop != nil {
 				if in2, ok := dr.X.(ssa.Instruction); ok && in2.Block() != nil && !in2.Block().Dominates(e.loop.header) {
 					continue // another variable of the same name in an unrelated scope
+				}
+				if _, isInstr := dr.X.(ssa.Instruction); !isInstr {
+					// constants / parameters: the debug reference itself must be in scope of the loop
+					if dr.Block() == e.loop.header || !dr.Block().Dominates(e.loop.header) {
+						continue
+					}
 				}
 				if in2, ok := dr.X.(ssa.Instruction); ok && e.loop.body[in2.Block()] {
 					if in2.Block() != e.loop.header {
@@ -687,6 +694,14 @@ func (e *Env) evalBin(x EBin) (tval, error) {
 	}
 	switch x.Op {
 	case "==", "!=":
+		// alloc(a) != alloc(b): remembered so that the generator can resolve loads across writes to the other object
+		if x.Op == "!=" {
+			if ca, ok := x.L.(ECall); ok && ca.Fun == "alloc" {
+				if cb, ok := x.R.(ECall); ok && cb.Fun == "alloc" && e.noteDistinct {
+					e.vc().distinctFacts[e.vc().canon(a.C[0])+"|"+e.vc().canon(b.C[0])] = true
+				}
+			}
+		}
 		// nil comparisons
 		if a.T == types.Typ[types.UntypedNil] {
 			a, b = b, a
